@@ -214,7 +214,10 @@ pub fn gen_workspace2(rng: &mut Rng, rich: bool, max_patches: usize, allow_fail:
         // patches behind the first failing one may fail as well (only a parallel or a dry run ever looks at them)
         let fails_here = fail_at == Some(i) || (fail_at.map(|f| i > f).unwrap_or(false) && rng.chance(more_pct));
         let gp = gen_patch(rng, &mut gt, fails_here, rich);
-        let name = format!("p{}.patch", i);
+        // (rarely) a patch whose name starts with '#': written with leading whitespace in `series`, it is a
+        // patch, not a comment, and must be found again in .pc/applied-patches by the next invocation
+        let hash_name = rng.chance(3);
+        let name = if hash_name { format!("#p{}.patch", i) } else { format!("p{}.patch", i) };
         if gp.text.is_empty() && rng.chance(70) {
             // nothing generated: an empty patch file is a legal series entry too
         }
@@ -224,7 +227,7 @@ pub fn gen_workspace2(rng: &mut Rng, rich: bool, max_patches: usize, allow_fail:
         // (rarely) a strip count far beyond what any name has: every name becomes empty, the patch is refused
         let huge = rng.chance(1);
         let opt = if huge { rng.pick(&[" -p18446744073709551615".to_string(), " -p4000000000".to_string(), " -p 1099511627776".to_string()]).clone() } else { match gp.p { 1 => if rng.chance(50) { "".to_string() } else { " -p1".to_string() }, p => rng.pick(&[format!(" -p{}", p), format!(" -p {}", p), format!(" --strip={}", p)]).clone() } };
-        series.extend_from_slice(format!("{}{}\n", name, opt).as_bytes());
+        series.extend_from_slice(format!("{}{}{}\n", if hash_name { " " } else { "" }, name, opt).as_bytes());
         names.push(name);
     }
     tree.insert(b"series".to_vec(), Entry::File(0o644, series));
